@@ -242,6 +242,7 @@ func (c *C09Case) Run() string {
 	want, fits := c.model(A.arr, bArr)
 	var opts []tensor.FuncOpt
 	var Dst *opndB
+	var scratch *tensor.Dense
 	if fits && (c.Mode == "reuse" || c.Mode == "incr" || c.Mode == "reuse+incr") && c.Dst != nil {
 		dst := *c.Dst
 		dst.Shape = want.Shape
@@ -265,7 +266,7 @@ func (c *C09Case) Run() string {
 		default:
 			// both at once: the product goes through the reuse tensor and is added into the increment
 			// tensor, which is returned (the dispatching Dot forwards the pair to the products)
-			scratch := tensor.New(tensor.Of(d.T), tensor.WithShape(want.Shape...))
+			scratch = tensor.New(tensor.Of(d.T), tensor.WithShape(want.Shape...))
 			opts = append(opts, tensor.WithReuse(scratch), tensor.WithIncr(Dst.b.T))
 		}
 	}
@@ -381,6 +382,17 @@ func (c *C09Case) Run() string {
 	}
 	rec.Class("computed")
 	c09Last = fmt.Sprint(res)
+	if scratch != nil && c.Op != "Dot" {
+		// the reuse tensor that carried the product is the caller's: still a tensor of the result's shape
+		// holding the product, also after the pools have been stirred
+		dirtyPools()
+		if !eqInts([]int(scratch.Shape()), want.Shape) || scratch.DataSize() != prod(want.Shape) {
+			return desc + fmt.Sprintf(": the reuse tensor that carried the product now has shape %v and %d elements of storage (the product has shape %v)", scratch.Shape(), scratch.DataSize(), want.Shape)
+		}
+		if m := compareAt(scratch, want, eqVal); m != "" {
+			return desc + ": the reuse tensor that carried the product: " + m
+		}
+	}
 	if (c.Mode == "incr" || c.Mode == "reuse+incr") && Dst != nil {
 		w := Arr{DT: want.DT, Shape: want.Shape, E: make([]interface{}, len(want.E))}
 		for k := range want.E {
